@@ -45,7 +45,7 @@ func (e *Engine) verifyFunc(name, prop string, safety bool) *FuncResult {
 	}
 	st := &State{guard: "true", heap: map[string]string{}}
 	st.alloc = r.ctx.fresh("alloc0", sRef)
-	r.assume(st, refLt("65536", st.alloc))
+	r.assume(st, refLt(refLit(0x10000*refStride), st.alloc))
 	// parameters
 	for _, p := range fn.Params {
 		v, err := r.freshValue("p."+p.Name(), p.Type())
@@ -199,6 +199,18 @@ func (e *Engine) verifyFunc(name, prop string, safety bool) *FuncResult {
 	sort.Strings(res.Inlined)
 	res.Used = r.usedContracts()
 	res.Unsup = r.unsup
+	var cubes []string
+	if ct != nil {
+		for _, se := range ct.Splits {
+			fr.cur = nil
+			g, err := fr.evalBool(se, fr.entry, nil)
+			if err != nil {
+				res.Err = fmt.Errorf("split %s: %v", exprString(se), err)
+				return res
+			}
+			cubes = append(cubes, r.ctx.define("cube", sBool, g))
+		}
+	}
 	for _, o := range res.Obls {
 		if o.Expect == "sat" {
 			o.Script = r.ctx.queryMode([]string{o.Guard, not(o.Goal)}, nil, 2)
@@ -208,6 +220,10 @@ func (e *Engine) verifyFunc(name, prop string, safety bool) *FuncResult {
 		o.Alt = r.ctx.queryMode([]string{o.Guard, not(o.Goal)}, nil, 1)
 		o.Cand = r.ctx.queryMode([]string{o.Guard, not(o.Goal)}, nil, 2)
 		o.info = info
+		if len(cubes) > 0 && !o.inLoop {
+			o.Cubes = cubes
+			o.ctxRef = r.ctx
+		}
 	}
 	return res
 }
